@@ -171,6 +171,47 @@ def fam_cleanup_faults(rng, n):
     return ('failing-cleanup', jobs)
 
 
+def fam_contention(rng, n):
+    """Several stream transfers competing for the in-memory windows and the
+    submission threads: the adversarial configurations of C10/C11."""
+    jobs = []
+    dl = {'kind': 'download', 'dst': 'nonseekable', 'size': 7}
+    up = {'kind': 'upload', 'src': 'nonseekable', 'size': 7}
+    ups = {'kind': 'upload', 'src': 'seekable', 'size': 6, 'offset': 1}
+    cp = {'kind': 'copy', 'size': 5}
+    dp = {'kind': 'download', 'dst': 'path', 'size': 5}
+    confs = [
+        ([dl, dl], {'S': 2, 'R': 2, 'down_chunks': 1}),
+        ([dl, dl, dl], {'S': 2, 'R': 3, 'down_chunks': 2}),
+        ([dl, dl], {'S': 2, 'R': 3, 'down_chunks': 1, 'IOQ': 1}),
+        ([up, up, up], {'S': 1, 'R': 3, 'up_chunks': 1}),
+        ([up, ups, up, ups], {'S': 2, 'R': 3, 'up_chunks': 1}),
+        ([up, up, up], {'S': 1, 'R': 2, 'up_chunks': 2, 'RQ': 1}),
+        ([cp, dp, cp, dl], {'S': 1, 'R': 3}),
+        ([dp, dp, cp], {'S': 2, 'R': 3, 'IOQ': 1}),
+    ]
+    for ts, cfg in confs:
+        sc = {'name': 'contention', 'transfers': copy.deepcopy(ts), 'cfg': cfg}
+        jobs += S.schedules(sc, n, rng)
+    return ('window-contention', jobs)
+
+
+def fam_cancel_all(rng, n):
+    """2-3 transfers in flight, then shutdown(cancel=True) / leaving the
+    with-block through an exception or Ctrl-C at a random step."""
+    jobs = []
+    for sc in S.mixes(rng, n):
+        how = rng.choice(['shutdown', 'exit-exc', 'exit-kbi', 'kbi-result'])
+        sc['cancel'] = {'how': how, 'gate': rng.randint(1, 120), 'x': 0,
+                        'msg': f'msg-{how}'}
+        if how != 'shutdown':
+            sc['user'] = {'mode': 'with'}
+        else:
+            sc['user'] = {'results': False}
+        jobs += S.schedules(sc, 2, rng)
+    return ('cancel-all', jobs)
+
+
 def fam_reenter(names, rng, n):
     jobs = []
     for name in names:
@@ -307,17 +348,20 @@ def families(pid, tier, rng):
         return [
             fam_limits(S.ALL, rng, 6 * k, 3),
             fam_mixes(rng, 60 * k, 4),
+            fam_contention(rng, 40 * k),
         ]
     if pid == 'C11':
         return [
             fam_limits(['up-ns-mp', 'up-seek-mp', 'dl-ns-mp', 'up-ns-1'], rng, 10 * k, 4),
             fam_mixes(rng, 60 * k, 4),
             fam_streams(['dl-ns-mp'], rng, per=1),
+            fam_contention(rng, 40 * k),
         ]
     if pid == 'C18':
         return [
             fam_mixes(rng, 40 * k, 3, faults=True, cancels=True, fresh=True),
             fam_mixes(rng, 30 * k, 3, faults=True, shutdown_only=True),
+            fam_cancel_all(rng, 60 * k),
         ]
     if pid == 'C12':
         return [fam_mixes(rng, 40 * k, 3, faults=True, cancels=True)]
@@ -340,7 +384,7 @@ CLAUSES = {
     'C01': 'C01_', 'C02': ('C02_', 'C16_'), 'C03': ('C03_', 'C05_', 'C06_'),
     'C04': 'C04_', 'C05': 'C05_',
     'C06': 'C06_', 'C07': ('C07_', 'C05_', 'C06_'), 'C08': 'C08_', 'C09': 'C09_',
-    'C10': 'C10_',
+    'C10': ('C10_', 'C11_'),
     'C11': 'C11_', 'C12': 'C12_', 'C14': 'C14_', 'C16': 'C16_', 'C17': 'C17_',
     'C18': ('C18_', 'C01_', 'C02_', 'C03_'),
 }
